@@ -345,7 +345,7 @@ class Gen:
                 ("if (%s) 110, 120, 130" % self.rexpr(1), "arithmetic_if"),
                 ("go to 110", "goto"), ("goto 120", "goto"),
                 ("go to (110, 120, 130), %s" % self.ivar(), "computed_goto"),
-                ("goto (110, 120) %s + 1" % self.ivar(), "computed_goto"),
+                ("goto (110, 120), %s + 1" % self.ivar(), "computed_goto"),
                 ("backspace 10", "backspace"), ("backspace (unit = 10, iostat = %s)" % self.ivar(), "backspace"),
                 ("endfile (10)", "endfile"), ("endfile 11", "endfile"),
                 ("flush (10)", "flush"), ("flush (unit = 10, iostat = %s)" % self.ivar(), "flush"),
@@ -783,7 +783,7 @@ class Gen:
             ("character :: cLen*5, cLen2*(*)", "char_length"),
             ("character(10, kind = 1) :: cSel", "char_selector"),
             ("character(len = 5, kind = 1) :: cSel2", "char_selector"),
-            ("character(kind = 1, len = *) :: cSel3", "char_selector"),
+            ("character(len = *, kind = 1) :: cSel3", "char_selector"),
             ("complex, parameter :: cZ = (1.0, -2.0e0)", "complex_literal"),
             ("integer, parameter :: bozK = b'1010' + o'17' + z'1f'", "boz"),
             ("data (aVec(iCnt), iCnt = 1, 5) /5*0.0/", "data_implied_do"),
